@@ -188,6 +188,12 @@ inductive Mutation where
   | alloc (i : Id) (o : Obj)                    -- a new container / object comes into existence (validation of an assigned list)
   | setField (o : Id) (n : Name) (v : Val) (fresh : Id)     -- `o.n = v`
   | read (o : Id) (n : Name) (fresh : Id)       -- `o.n` (materialises the default)
+  /-- `del o.n` — the delete branch of `setattr_trait` (ctraits.c:2441-2489).  ASSUMPTION: the
+  notifier list of the trait exists (`traito->notifiers != NULL`, :2463), as it does after any
+  earlier registration on it, whether or not a notifier is left in it: the hooks of the model do
+  not record a list that was never created, where the C code only drops the `__dict__` entry.
+  `fresh` names the cell of a container default. -/
+  | delField (o : Id) (n : Name) (fresh : Id)
   | addTrait (o : Id) (n : Name) (tagged : Bool) (d : Dflt)   -- `o.add_trait(n, …)`
   /-- `add_trait(guard, List/Dict/Set(…))` first adds and ANNOUNCES the companion event trait
   `n` = "<guard>_items" (has_traits.py:2829-2830), which `traits()` never lists: `trait_added`
@@ -256,6 +262,20 @@ def fire (E : Env) (H : Hooks) (h' : Heap) (o : Id) (n : Name) (old new : Val) :
   let r := callTrait E h' o n old new (H.get (.trait o n)) H []
   ⟨⟨h', r.1⟩, r.2.1, r.2.2⟩
 
+/-- Second half of the delete branch of `setattr_trait` (ctraits.c:2470-2484), after
+`traito->getattr` (`getattr_trait`) has put the default back and announced it (`r1`):
+`changed = (old_value != value)` by identity, always under `comparison_mode` none (:2439, :2470-2472);
+when changed, `call_notifiers(…, old_value, value)` (:2478-2482) — on the default that the first
+announcement has hooked already (finding F99). -/
+def refire (E : Env) (r1 : Out) (o : Id) (n : Name) (cmp : Cmp) (old new : Val) : Out :=
+  match r1.err with
+  | some _ => r1
+  | none =>
+    if cmp == .none || old != new then
+      let r2 := fire E r1.st.H r1.st.h o n old new
+      ⟨r2.st, r1.delivered ++ r2.delivered, r2.err⟩
+    else r1
+
 /-- One mutation: heap change, then notifications.  `err = some .other` with an
 unchanged state marks an ill-formed mutation (unknown object, index out of
 range for the simplified list operations, …) that the harness never generates. -/
@@ -287,6 +307,22 @@ def mutate (E : Env) (st : St) : Mutation → Out
            let mv := materialise st.h f.dflt fresh
            fire E st.H (storeField mv.1 o n mv.2) o n .unset mv.2
          else ⟨st, [], none⟩)
+    | _ => skip st
+  | .delField o n fresh =>
+    -- ctraits.c:2441-2489 (`value == NULL`), notifier list non-NULL (see `Mutation.delField`)
+    match st.h.get o with
+    | .inst fs =>
+      (match findField fs n with
+       | none => skip st
+       | some f =>
+         -- :2451-2454 not in `__dict__`: `return 0`
+         if f.val == .unset then ⟨st, [], none⟩
+         else
+           -- :2457 PyDict_DelItem; :2464 `value = traito->getattr(traito, obj, name)`, i.e.
+           -- getattr_trait: default_value_for, PyDict_SetItem, call_notifiers(Uninitialized, default)
+           -- (:2009-2030); then :2470-2484
+           let mv := materialise (storeField st.h o n .unset) f.dflt fresh
+           refire E (fire E st.H (storeField mv.1 o n mv.2) o n .unset mv.2) o n f.cmp f.val mv.2)
     | _ => skip st
   | .addTrait o n tagged d =>
     -- has_traits.py:2801-2872
